@@ -745,6 +745,11 @@ func init() {
 // RegisterAPI installs the harness API overrides for the module's errors package.
 func RegisterAPI(apiPkg string) {
 	O := overrides
+	// the repository's own scheduling-point hook (a no-op without the verif tag) is a yield of the engine's scheduler
+	O[strings.TrimSuffix(apiPkg, "/errors")+"/runtime.verifSchedPoint"] = func(fr *frame, args []value) value {
+		fr.i.yield(fr.g)
+		return nil
+	}
 	nd := func(k types.BasicKind) intrinsic {
 		return func(fr *frame, args []value) value {
 			name := "nd_" + strArg(args[0], "Nd name")
